@@ -533,8 +533,12 @@ def plan(ctx):
     lpts = {}
     if ctx.thorough:
         lpts = {sid: count_points('line', sid, seed) for sid in IDS}
+        nxt = {a: IDS[(i + 1) % len(IDS)] for i, a in enumerate(IDS)}
         for config in CONFIGS:
             for ids in pairs:
+                # 'separate' lies between 'shared' and 'different': there only (a,a) and (a,next(a)) at line granularity
+                if config == 'separate' and not (ids[0] == ids[1] or nxt[ids[0]] == ids[1] or nxt[ids[1]] == ids[0]):
+                    continue
                 add('line', config, ids, 1, 2 + sum(lpts[s] for s in ids), 500)
         for mode, config, ids in LINE2:
             n = [count_points(mode, sid, seed) for sid in ids]
@@ -711,7 +715,8 @@ def run(ctx):
                   '3 threads: all schedules with <= 2 preemptions for %d triples x 3 configurations'
                   % (len(total.sets['items|yield|shared|2']), len(total.sets['items|yield|shared|3'])))
                  + ('; line granularity (sys.settrace, a point before every line of beanquery/*.py): all schedules with <= 1 '
-                    'preemption for all pairs x 3 configurations; <= 2 preemptions with line points restricted to the modules '
+                    'preemption for all pairs in the shared and different configurations and the (a,a), (a,next a) pairs in the separate '
+                    'configuration; <= 2 preemptions with line points restricted to the modules '
                     'holding the shared state for %s (at most %d executions per sub-shard)'
                     % ([f'{m} {c} {"+".join(i)}' for m, c, i in LINE2], LINE2_CAP) if ctx.thorough else ''),
         'caps_hit': [f'{label} sub-shard {s}: {u} prefixes unexplored' for label, s, u in capped][:40],
